@@ -39,7 +39,10 @@ func Sign(ctx context.Context, r io.Reader, cert *certloader.Certificate, params
 		}
 	}
 	// splice the patched header with the rest of the stream
-	params.Pages = io.LimitReader(io.MultiReader(bytes.NewReader(headerBuf), r, bytes.NewReader(make([]byte, padding))), sigStart)
+	// only the code up to the end of __LINKEDIT is followed by the padding and the signature; anything behind it
+	// stays behind the signature and is not part of the hashed pages
+	code := io.LimitReader(r, markers.codeSize-int64(len(headerBuf)))
+	params.Pages = io.LimitReader(io.MultiReader(bytes.NewReader(headerBuf), code, bytes.NewReader(make([]byte, padding))), sigStart)
 	if markers.sigLen != 0 {
 		// read the old signature after the pages are hashed
 		params.OldSignature = io.LimitReader(r, markers.sigLen)
